@@ -37,6 +37,7 @@ type Solver struct {
 	Errors    int
 	Restarts  int
 	FreshRetriesOK int
+	SlowOK int // decided only by the last, full-budget one-shot stage (borderline for the solver)
 	SolverSec float64
 	logw      io.Writer
 	noOneShot bool
@@ -566,7 +567,11 @@ func (s *Solver) oneShot(assertions []*Term, wantModel []*Term) (string, Model) 
 			return r, m
 		}
 	}
-	return s.oneShotT(script, full)
+	r, m := s.oneShotT(script, full)
+	if r != "unknown" && full > 15 {
+		s.SlowOK++
+	}
+	return r, m
 }
 
 func (s *Solver) oneShotT(script string, secs int) (string, Model) {
